@@ -80,9 +80,14 @@ PROPS['C02'] = {
         'C02.V.rect_contains_rect': r'^c02_k_contains_rect',
         'C02.V.line_contains_coord': r'^c02_k_contains_line_coord',
         'C02.V.line_position': r'^c02_k_line_coord',
+        'C02.V.linestring_position': r'^c02_k_linestring_pos',
+        'C02.V.multilinestring_position': r'^c02_k_multilinestring_pos_main',
+        'C02.V.polygon_intersects_coord': r'^c02_k_polygon_(with_hole_)?pos',
+        'C02.V.polygon_contains_coord': r'^c02_k_polygon_(with_hole_)?pos',
     },
     'trusted': ['assumed contract of the Kernel trait: orient2d returns the exact sign (robust::orient2d for floats; default body verified for integers in C03)',
-                'Vec-returning twin of LineString::lines() (element i = Line{start: s[i], end: s[i+1]})'],
+                'Vec-returning twin of LineString::lines() (element i = Line{start: s[i], end: s[i+1]})',
+                'LineString position: the callees bounding_rect (contains every coordinate), Rect x Coord and LineString x Coord intersects are used through ASSUMED contracts (decided elsewhere: c02_intersects, K harnesses c02_k_linestring_pos_*, c19)'],
     'undecided_clauses': [
         'pairs of two extended geometries that are decided through relate (inherit the limits of C01)',
         'Contains/Within impls other than those listed in the evidence',
